@@ -24,6 +24,7 @@ import (
 	"time"
 
 	"go.pennock.tech/tabular"
+	"go.pennock.tech/tabular/auto"
 	"go.pennock.tech/tabular/csv"
 	thtml "go.pennock.tech/tabular/html"
 	tjson "go.pennock.tech/tabular/json"
@@ -541,6 +542,17 @@ func runC17(x *X) {
 			c.Logf("%s", op)
 			c17Exec(op, names, 0, &clock, &log)
 			x.Transition(1)
+			// names are matched exactly: whatever is registered under n, its upper-case variant is unknown, also through auto
+			x.Clause("C17.fails_closed")
+			{
+				at := tabular.New()
+				at.AddRowItems("a")
+				up := strings.ToUpper(names[0])
+				if out, err := auto.Render(at, up); err == nil || out != "" {
+					x.Fail("C17.fails_closed", []string{"sequential", "fails_closed", "case_variant_of_a_registered_name"}, "auto.Render(t, %q) rendered (%d bytes, err %v) although only %q can be registered; ops %v", up, len(out), err, names[0], d)
+					return
+				}
+			}
 			x.Clause("C17.sequential_model")
 			if ok, why := c17Linearizable(log, names, initial); !ok {
 				tg := []string{"sequential"}
